@@ -299,10 +299,75 @@ def gen_case(rng, kind, big=False, allow_known=False):
     return " | ".join(ops)
 
 
+RACE_SHAPES = ["stale_get_vs_subsuming_put", "damaged_entry_two_gets", "identical_puts", "put_vs_put_nested", "get_vs_evicting_put", "deleted_file_two_gets"]
+
+
+def gen_race(rng, shape, sched):
+    """Two threads with one call each over a prepared cache; the schedule is given (systematic enumeration)."""
+    u = Uni(rng, nkeys=2)
+    # make sure key 0 has enough chunks
+    kb, lens = u.keys[0]
+    u.keys[0] = (kb, (lens + [3, 5, 2, 7, 4, 6, 3, 5, 2, 4, 6, 8])[:12])
+    ops = u.ops()
+    mx = u.max_item()
+    cap = 1000000
+    pre, progs, mid = [], [], []
+    if shape == "stale_get_vs_subsuming_put":
+        pre = ["P 0 2 4", "P 0 8 10"]
+        progs = ["G,0,2,4", "P,0,0,6"]
+    elif shape == "damaged_entry_two_gets":
+        pre = ["P 0 1 5", "P 0 7 9"]
+        # the burst lands in the data of the first stored chunk (after the 4*(4+2) header bytes), which both gets read
+        nbits = 8 * u.keys[0][1][1]
+        off = 8 * 4 * 6 + rng.randrange(0, nbits)
+        pat = rng.choice([1, 3, 0x80000001]) if nbits > 40 else 1
+        mid = ["C", "DF 0 0 %d %d" % (off, pat), "O %d" % cap]
+        progs = ["G,0,1,5", rng.choice(["G,0,1,5", "G,0,1,3", "G,0,1,2"])]
+    elif shape == "identical_puts":
+        pre = ["P 0 7 9"] if rng.random() < 0.5 else []
+        progs = ["P,0,1,5", "P,0,1,5"]
+    elif shape == "put_vs_put_nested":
+        pre = ["P 0 2 3"]
+        progs = ["P,0,1,5", "P,0,0,6"]
+    elif shape == "get_vs_evicting_put":
+        cap = u.item_len(0, 1, 5) + u.item_len(0, 6, 9) + 3
+        pre = ["P 0 1 5", "P 0 6 9"]
+        progs = ["G,0,1,5", "P,0,9,12"]
+    elif shape == "deleted_file_two_gets":
+        pre = ["P 0 1 5", "P 0 7 9"]
+        mid = ["DD 0 0"]
+        progs = ["G,0,1,5", "G,0,1,3"]
+    else:
+        raise ValueError(shape)
+    ops.append("O %d" % cap)
+    ops += pre + mid
+    ops.append("R %s %s" % ("/".join(progs), sched))
+    ops += ["G 0 1 5", "G 0 2 4", "C", "O %d" % cap, "G 0 1 5"]
+    return " | ".join(ops)
+
+
+def race_cases(rng, big):
+    import itertools
+    cases = []
+    for shape in RACE_SHAPES:
+        scheds = ["".join(t) for t in itertools.product("01", repeat=7)]
+        if not big:
+            scheds = rng.sample(scheds, 20)
+        seed = rng.getrandbits(32)
+        for i, sc in enumerate(scheds):
+            import random
+            r2 = random.Random(seed)       # the same universe for every schedule of a shape
+            cases.append({"id": "race_%s_%d" % (shape[:12], i), "text": gen_race(r2, shape, sc), "meta": {"kind": "race"}})
+    return cases
+
+
 def streams(rng, tier, kinds, per_kind=None, allow_known=False):
     big = tier == "thorough"
     cases = []
     for kind in kinds:
+        if kind == "race":
+            cases += race_cases(rng, big)
+            continue
         n = per_kind if per_kind is not None else (24 if not big else 150)
         for i in range(n):
             cases.append({"id": "%s%d" % (kind, i), "text": gen_case(rng, kind, big, allow_known), "meta": {"kind": kind}})
